@@ -429,6 +429,20 @@ func runC10(c *Ctx) {
 				c.CountSite()
 				ok := lc.bounded(cc.Args[1], call.Block())
 				if !ok {
+					// min(announced, <constant>): bounded by the constant whatever was announced
+					v := strip(cc.Args[1])
+					if cv, isCv := v.(*ssa.Convert); isCv {
+						v = strip(cv.X)
+					}
+					if mc, isCall := v.(*ssa.Call); isCall && IsCallTo(mc, "builtin min") {
+						for _, a := range mc.Call.Args {
+							if _, isK := ConstInt(a); isK {
+								ok = true
+							}
+						}
+					}
+				}
+				if !ok {
 					// sized from data already in memory
 					inMem := true
 					ls := Origins(cc.Args[1])
@@ -937,10 +951,22 @@ func runC10(c *Ctx) {
 				continue
 			}
 			for _, fn := range p.Family(m) {
+				// the function, or a module helper it calls, takes the message from the query
 				usesQuery := false
 				for _, call := range Calls(fn) {
-					if sc := call.Common().StaticCallee(); sc != nil && N(sc) == "queryValues" {
+					sc := call.Common().StaticCallee()
+					if sc == nil {
+						continue
+					}
+					if N(sc) == "queryValues" {
 						usesQuery = true
+					}
+					if p.inModule(sc) && sc != fn {
+						for _, inner := range Calls(sc) {
+							if isc := inner.Common().StaticCallee(); isc != nil && N(isc) == "queryValues" {
+								usesQuery = true
+							}
+						}
 					}
 				}
 				if !usesQuery {
@@ -993,6 +1019,79 @@ func runC10(c *Ctx) {
 		}
 		if nGet == 0 {
 			c.Bad("C10.10", "clientBodyPreparer", "query-message-within-limit", token.NoPos, "no decoding of a message taken from the query string found: shape changed")
+		}
+	}
+
+	// ---------------------------------------------------------------- C10.11
+	// (defect D65) The configured limit bounds what may be BUFFERED, and its default is 4 GiB.  A
+	// size a peer merely ANNOUNCES (an envelope's length field, a Content-Length) costs the peer
+	// five bytes; allocating it up front lets a 7-byte request take gigabytes (and minutes of
+	// zeroing) before the first payload byte arrives.  So a buffer is pre-sized only from data the
+	// transcoder already holds (len of a slice/string, Len of a buffer, an encoded length of
+	// those), or through min(announced, <constant>).
+	c.Rule("C10.11", "buffers are pre-sized from sizes already held, or from an announced size capped by a constant", 4)
+	{
+		held := func(v ssa.Value) bool {
+			ls := Origins(v)
+			if len(ls) == 0 {
+				return false
+			}
+			for _, l := range ls {
+				switch {
+				case l.Kind == "const":
+				case l.Kind == "call" && IsCallTo(l.Call, "builtin len", "(*bytes.Buffer).Len", "(*encoding/base64.Encoding).EncodedLen", "(*encoding/base64.Encoding).DecodedLen", "strings.Count", "bytes.Count"):
+				default:
+					return false
+				}
+			}
+			return true
+		}
+		capped := func(v ssa.Value) bool {
+			v = strip(v)
+			if cv, ok := v.(*ssa.Convert); ok {
+				v = strip(cv.X)
+			}
+			call, ok := v.(*ssa.Call)
+			if !ok || !IsCallTo(call, "builtin min") {
+				return false
+			}
+			for _, a := range call.Call.Args {
+				if k, isK := ConstInt(a); isK && k <= 1<<24 {
+					return true
+				}
+			}
+			return false
+		}
+		nGrow := 0
+		for _, fn := range SortedFuncs(reach) {
+			if !p.inScope(fn) {
+				continue
+			}
+			ord := map[string]int{}
+			for _, call := range Calls(fn) {
+				if !IsCallTo(call, "(*bytes.Buffer).Grow", "(*strings.Builder).Grow") {
+					continue
+				}
+				nGrow++
+				n := call.Common().Args[1]
+				construct := "pre-size"
+				ord[construct]++
+				if ord[construct] > 1 {
+					construct += "|#" + itoa(ord["pre-size"])
+				}
+				switch {
+				case held(n):
+					c.OK("C10.11", FuncName(fn), construct, call.Pos(), "pre-sized from the length of data already held")
+				case capped(n):
+					c.OK("C10.11", FuncName(fn), construct, call.Pos(), "pre-sized from an announced size through min(.., constant)")
+				default:
+					c.Bad("C10.11", FuncName(fn), construct, call.Pos(),
+						"a buffer is pre-sized from a size that a peer announced (an envelope length, a Content-Length, or the configured limit whose default is 4 GiB) without a constant cap: five bytes of input make the transcoder allocate and zero gigabytes before any payload arrives - minutes of stall or an out-of-memory crash that takes every other RPC with it")
+				}
+			}
+		}
+		if nGrow == 0 {
+			c.Bad("C10.11", "package", "pre-size", token.NoPos, "no buffer pre-sizing found: shape changed")
 		}
 	}
 
